@@ -247,7 +247,7 @@ class GeoBoxBase:
         assert self.crs is not None
         ext = self.extent
         if buffer != 0:
-            buffer = buffer * max(*self.resolution.xy)
+            buffer = buffer * max(abs(r) for r in self.resolution.xy)
             ext = ext.buffer(buffer)
 
         return ext.to_crs(crs, resolution=self._reproject_resolution(npoints)).dropna()
